@@ -62,12 +62,12 @@ PROPS["C10"] = dict(
     assumptions=A_COMMON + A_ITER + ["A-path, A-type as for C01", "schedule-level invariants (formations, listings, depot usage, cycles) not under contract"],
 )
 PROPS["C02"] = dict(
-    slices=["limits", "admission"],
+    slices=["limits", "admission", "mcf_bounds"],
     witness_family="net",
     level_text="Verus proves the per-call contracts: maximal_formation_count_for returns the smaller of the limits that are present (None iff neither), Depot::capacity_for is bounded by total and per-type capacity and is 0 for unlisted types, number_of_vehicles_required_to_serve is the exact ceiling; the schedule-level admission checks are exact: vehicle_replacement_in_train_formation lets a formation grow only while it is strictly below the track count (maintenance) resp. the combined formation limit (service) and otherwise performs exactly replace / remove / add_at_tail / no-op, can_depot_spawn_vehicle_custom_usage is true iff the type is listed with room left for the type and in total; the composition over schedule histories (train_formations single writer, spawn paths) is a structural argument, not machine-checked",
-    level_note="trusted: vstd, key-model axioms, u32::div_ceil and Option::or specs; stubs: VehicleTypes::get, VehicleTypes::iter; A-im (im::HashMap / HashSet shims), std HashMap Index spec; update_train_formation (the caller loop) and the flow bounds in min_cost_flow_solver.rs are not under contract",
+    level_note="trusted: vstd, key-model axioms, u32::div_ceil and Option::or specs; stubs: VehicleTypes::get, VehicleTypes::iter; A-im (im::HashMap / HashSet shims), std HashMap Index spec; update_train_formation (the caller loop) is not under contract; of the min-cost-flow stage only the bound expressions on trip and depot edges are under contract (R8 fragments: upper bound = combined limit resp. capacity_for, lower bound = min(required, limit)); that the circulation returned by rs_graph's network_simplex respects them is A-lib",
     scope="limit combination, depot capacity, vehicles required, formation/track admission, depot spawn admission, unserved passengers per node",
-    assumptions=A_COMMON + ["A-stub: VehicleTypes::get returns the stored type", "flow upper bounds in min_cost_flow_solver.rs not decided"],
+    assumptions=A_COMMON + ["A-stub: VehicleTypes::get returns the stored type", "A-lib: rs_graph::mcf::network_simplex returns a circulation within the edge bounds; the graph plumbing of solve_for_vehicle_type is pinned by a skeleton hash, not verified", "the stand-in 100 for 'no formation limit' in the flow network is documented behaviour (trips needing more than 100 unlimited vehicles are not fully served by the start solution)"],
 )
 PROPS["C03"] = dict(
     slices=["json_out"],
